@@ -580,7 +580,11 @@ func BuildDirTIFF(es []AEntry, bind map[int]*Bound, order string, ifdAt int) []b
 // encoding classes, one entry per tag id), in a simple forward layout: IFD0, its values, the Exif
 // directory, its values, the GPS directory, its values. Used as the base of fault injection so that
 // every value parser of the library is reached.
-func BuildFullTIFF(rng *rand.Rand, order string) []byte {
+func BuildFullTIFF(rng *rand.Rand, order string) []byte { return BuildFullTIFFAt(rng, order, 8) }
+
+// BuildFullTIFFAt is BuildFullTIFF with IFD0 at ifd0At (>= 8; the gap after the header is filler): the
+// same directories and values at every alignment with a reader's buffer windows.
+func BuildFullTIFFAt(rng *rand.Rand, order string, ifd0At int) []byte {
 	var bo binary.ByteOrder = binary.LittleEndian
 	if order == "BE" {
 		bo = binary.BigEndian
@@ -623,7 +627,7 @@ func BuildFullTIFF(rng *rand.Rand, order string) []byte {
 		}
 		return n
 	}
-	at := map[string]int{"IFD0": 8}
+	at := map[string]int{"IFD0": ifd0At}
 	at["Exif"] = at["IFD0"] + dirSize("IFD0")
 	at["GPS"] = at["Exif"] + dirSize("Exif")
 	buf := make([]byte, at["GPS"]+dirSize("GPS"))
@@ -632,7 +636,10 @@ func BuildFullTIFF(rng *rand.Rand, order string) []byte {
 	} else {
 		copy(buf, "II\x2a\x00")
 	}
-	bo.PutUint32(buf[4:], 8)
+	bo.PutUint32(buf[4:], uint32(ifd0At))
+	for i := 8; i < ifd0At; i++ {
+		buf[i] = 0xEE
+	}
 	for _, d := range []string{"IFD0", "Exif", "GPS"} {
 		p := at[d]
 		bo.PutUint16(buf[p:], uint16(len(dirs[d])))
